@@ -112,7 +112,7 @@ VARIANTS += [
     ("C06-py-out-swap", "C06", PYH, "        sign * min_diff,\n        sign * sec_diff,", "        sign * sec_diff,\n        sign * min_diff,", "SIGN.outputs"),
     ("C06-rs-radix", "C06", RSH, "    if hour_diff < 0 {\n        hour_diff += 24;", "    if hour_diff < 0 {\n        hour_diff += 12;", "BORROW.chain"),
     ("C06-rs-exact-type", "C06", RSH, "is_datetime: PyDateTime::is_type_of_bound(dt2),", "is_datetime: PyDateTime::is_exact_type_of_bound(dt2),", "SYMMETRY.descriptor"),
-    ("C06-rs-month-arm", "C06", RSH, "            Ordering::Greater => {\n                // We have a full month\n                day_diff += days_in_last_month;", "            Ordering::Greater => {\n                // We have a full month\n                day_diff += days_in_month;", "MONTHBRANCH.agree"),
+    ("C06-rs-month-arm", "C06", RSH, "            _ => {\n                // We have a full month\n                day_diff += days_in_last_month;", "            _ => {\n                // We have a full month\n                day_diff += days_in_month;", "MONTHBRANCH.agree"),
     ("C06-rs-asym-offset", "C06", RSH, "            if dtinfo2.hour < 0 {\n                dtinfo2.hour += 24;", "            if dtinfo2.hour < 0 {\n                dtinfo2.hour += 25;", "SYMMETRY.offset"),
     ("C06-rs-sign", "C06", RSH, "        seconds: second_diff * sign,", "        seconds: second_diff,", "SIGN.outputs"),
     ("C06-in-months", "C06", IV, "return self.years * MONTHS_PER_YEAR + self.months", "return self.years * MONTHS_PER_YEAR + self.months + 1", "INTERVAL.props"),
@@ -233,10 +233,7 @@ VARIANTS += [
     ("C11-int-timestamp-nofold", "C11", DT, "            tzinfo=self.tzinfo,\n            fold=self.fold,\n        )\n\n        delta = dt - self._EPOCH", "            tzinfo=self.tzinfo,\n        )\n\n        delta = dt - self._EPOCH", "RECON.state"),
 ]
 
-OLD_START = '''        if unit in ("second", "minute", "hour"):
-            return cast("Self", getattr(self, f"_start_of_{unit}")())
-
-        # The start of a day (or of a larger unit) does not depend on the fold
+OLD_START = '''        # The start of a day (or of a larger unit) does not depend on the fold
         # of the instance: a skipped boundary is resolved forward,
         # a repeated one to its first occurrence.
         dt = getattr(self.replace(fold=1), f"_start_of_{unit}")()
@@ -248,7 +245,7 @@ OLD_START = '''        if unit in ("second", "minute", "hour"):
 VARIANTS += [
     ("C12-clean", "C12", None, "", "", None),
     ("C12-prefix-fold-flow", "C12", DT, OLD_START, '        return cast("Self", getattr(self, f"_start_of_{unit}")())\n', "FOLD.flow"),
-    ("C12-day-in-small", "C12", DT, '        if unit in ("second", "minute", "hour"):\n            return cast("Self", getattr(self, f"_end_of_{unit}")())', '        if unit in ("second", "minute", "hour", "day"):\n            return cast("Self", getattr(self, f"_end_of_{unit}")())', "FOLD.small-units"),
+    ("C12-day-in-small", "C12", DT, '        if unit in ("second", "minute", "hour"):\n            # The fold of the instance selects the occurrence of a repeated\n            # time, but a skipped end', '        if unit in ("second", "minute", "hour", "day"):\n            # The fold of the instance selects the occurrence of a repeated\n            # time, but a skipped end', "FOLD"),
     ("C12-start-always-first", "C12", DT, "        return cast(\"Self\", first if first.utcoffset() != dt.utcoffset() else dt)", "        return cast(\"Self\", first)", None),
     ("C12-start-never-first", "C12", DT, "        return cast(\"Self\", first if first.utcoffset() != dt.utcoffset() else dt)", "        return cast(\"Self\", dt)", "FOLD.flow"),
     ("C12-wrong-pin", "C12", DT, 'dt = getattr(self.replace(fold=0), f"_end_of_{unit}")()', 'dt = getattr(self.replace(fold=1), f"_end_of_{unit}")()', "FOLD.flow"),
@@ -486,7 +483,25 @@ VARIANTS += [
     ("C02-gap-seconds-abs", "C02", TZ, "                    + (\n                        (offset_after - offset_before)\n                        if dt.fold\n                        else (offset_before - offset_after)\n                    ),", "                    + _datetime.timedelta(seconds=(offset_after - offset_before).seconds * (1 if dt.fold else -1)),", "UNITS.offset-delta"),
     ("C15-long-year-inline-wrong", "C15", PYH, "    def p(y: int) -> int:\n        return y + y // 4 - y // 100 + y // 400\n\n    return p(year) % 7 == 4 or p(year - 1) % 7 == 3", "    a = year + year // 4 - year // 100 + year // 400\n\n    return a % 7 == 4 or (a - 1) % 7 == 3", "FORMULA.is_long_year"),
 ]
+VARIANTS += [
+    ("C08-timestamp-negative-fraction", "C08", FMT, '                if parsed["timestamp"] < 0 and microseconds:\n', '                if False:\n', "SCALE.timestamp"),
+    ("C08-timestamp-complement-always", "C08", FMT, '                if parsed["timestamp"] < 0 and microseconds:\n', '                if microseconds:\n', "SCALE.timestamp"),
+]
+VARIANTS += [
+    ("C06-py-full-month-any", "C06", PYH, "        elif (\n            d_diff == days_in_month - days_in_last_month\n            and d1.day == days_in_last_month\n        ):", "        elif d_diff == days_in_month - days_in_last_month:", "MONTHBRANCH.rebuild"),
+    ("C06-rs-full-month-any", "C06", RSH, "            Ordering::Equal if dtinfo1.day == days_in_last_month => {", "            Ordering::Equal => {", "MONTHBRANCH.rebuild"),
+    ("C06-py-clamped-start", "C06", PYH, "            if days_in_last_month < d1.day:\n                d_diff += d1.day", "            if days_in_last_month <= d1.day:\n                d_diff += d1.day + 1", "MONTHBRANCH.rebuild"),
+]
+VARIANTS += [
+    ("C12-small-start-instance-fold", "C12", DT, "            return cast(\"Self\", dt if dt.naive() == forward.naive() else forward)", "            return cast(\"Self\", dt)", "FOLD.small-units"),
+    ("C12-small-end-pin-forward", "C12", DT, "            backward = getattr(self.replace(fold=0), f\"_end_of_{unit}\")()", "            backward = getattr(self.replace(fold=1), f\"_end_of_{unit}\")()", "FOLD.small-units"),
+    ("C16-next-no-renormalise", "C16", DT, "        dt = dt.add(days=1)\n        while dt.day_of_week != day_of_week:\n            dt = dt.add(days=1)\n\n        # The day we started from may begin later than midnight\n        return dt if keep_time else dt.start_of(\"day\")", "        dt = dt.add(days=1)\n        while dt.day_of_week != day_of_week:\n            dt = dt.add(days=1)\n\n        return dt", "NAV.shape"),
+    ("C16-first-of-raw-receiver", "C16", DT, "            getattr(self._day(), f\"_first_of_{unit}\")(day_of_week).start_of(\"day\"),", "            getattr(self, f\"_first_of_{unit}\")(day_of_week).start_of(\"day\"),", "DISPATCH.name"),
+    ("C16-last-of-no-midnight", "C16", DT, "            getattr(self._day(), f\"_last_of_{unit}\")(day_of_week).start_of(\"day\"),", "            getattr(self._day(), f\"_last_of_{unit}\")(day_of_week),", "DISPATCH.midnight"),
+    ("C16-day-keeps-fold", "C16", DT, "        return self.start_of(\"day\").replace(fold=1)", "        return self.start_of(\"day\")", "DISPATCH.name"),
+]
 BENIGN2 = [
+    ("day-helper-inline", DT, ["C16"], [("            getattr(self._day(), f\"_first_of_{unit}\")(day_of_week).start_of(\"day\"),", "            getattr(self.start_of(\"day\").replace(fold=1), f\"_first_of_{unit}\")(day_of_week).start_of(\"day\"),")]),
     ("long-year-inline", PYH, ["C15"], [("    def p(y: int) -> int:\n        return y + y // 4 - y // 100 + y // 400\n\n    return p(year) % 7 == 4 or p(year - 1) % 7 == 3", "    a = year + year // 4 - year // 100 + year // 400\n    prev = year - 1\n    b = prev + prev // 4 - prev // 100 + prev // 400\n\n    return a % 7 == 4 or b % 7 == 3")]),
     ("rs-carry-gt-59", RSH, ["C06"], [("            } else if dtinfo1.second >= 60 {", "            } else if dtinfo1.second > 59 {"), ("            } else if dtinfo2.second >= 60 {", "            } else if dtinfo2.second > 59 {")]),
     ("default-day-or-order", FMT, ["C08"], [('            if parsed["year"] is not None or parsed["month"] is not None:', '            if parsed["month"] is not None or parsed["year"] is not None:')]),
